@@ -126,6 +126,59 @@ func checkC09(c *Ctx) {
 			if early != "" {
 				okSort = false
 			}
+			// the set that is built holds every member of the sorted slice, in that order: each append takes the
+			// element of a full range over the very slice that was sorted, unconditionally
+			var sortArg ssa.Value
+			ana.Instrs(f, func(in ssa.Instruction) {
+				if call, ok := in.(*ssa.Call); ok {
+					if d, _ := ana.Describe(&call.Call); d.Recv == "ExternalSigners" && d.Name == "Sort" && len(call.Call.Args) > 0 {
+						sortArg = call.Call.Args[0]
+					}
+				}
+			})
+			if sortArg != nil {
+				nApp, okCopy := 0, true
+				why := ""
+				ana.Instrs(f, func(in ssa.Instruction) {
+					call, ok := in.(*ssa.Call)
+					if !ok {
+						return
+					}
+					b, ok := call.Call.Value.(*ssa.Builtin)
+					if !ok || b.Name() != "append" || len(call.Call.Args) != 2 {
+						return
+					}
+					sl, ok := call.Call.Args[1].(*ssa.Slice)
+					if !ok {
+						return
+					}
+					el := singleElem(sl)
+					if el == nil {
+						return
+					}
+					if n := ana.NamedOf(derefType(el.Type())); n == nil || n.Obj().Name() != "ExternalSigner" {
+						return
+					}
+					nApp++
+					ld, isLd := el.(*ssa.UnOp)
+					var ia *ssa.IndexAddr
+					if isLd {
+						ia, _ = ld.X.(*ssa.IndexAddr)
+					}
+					switch {
+					case ia == nil || !ana.RangeIndex(ia):
+						okCopy, why = false, "an appended member is not the element of a full range loop"
+					case ia.X != sortArg && !sameObject(ia.X, sortArg):
+						okCopy, why = false, "the members are taken from another slice than the one that was sorted"
+					case ia.Block() != call.Block():
+						okCopy, why = false, "a member can be skipped (the append is conditional)"
+					}
+				})
+				if nApp > 0 {
+					r.Check(okCopy, "C09.membership", "constructor-copies-all:"+fname(f), c.pos(a), "the constructor copies every member of the sorted slice, in order",
+						"the signer-set constructor does not carry over every member of the slice it sorted, in that order: "+why)
+				}
+			}
 			r.Check(okSort, "C09.sorted", "constructor:"+fname(f), c.pos(a), "the members are sorted before the SignerSetTx is built", "a SignerSetTx is built from members that were not sorted first"+map[bool]string{true: " (they are read at " + early + ", before the sort)", false: ""}[early != ""])
 		}
 	}
@@ -1128,4 +1181,11 @@ func isByteSliceType(t types.Type) bool {
 	}
 	b, ok := sl.Elem().Underlying().(*types.Basic)
 	return ok && b.Kind() == types.Uint8
+}
+
+func derefType(t types.Type) types.Type {
+	if pt, ok := t.Underlying().(*types.Pointer); ok {
+		return pt.Elem()
+	}
+	return t
 }
